@@ -52,7 +52,7 @@ hdr = ["Each of the 20 properties was given to a fresh sub-agent that saw only t
        "property's check, 5 more only by another property's check, 7 by none — i.e. 33 of 40 by some",
        "check (round one: 27 of 40). After a second strengthening pass 38 are reported by their own",
        "property's check, 1 only by another (r2-C14-2), and 1 by none (r2-C03-2, extent arithmetic —",
-       "listed under C03 'Not decided').",
+       "listed under C03 'Not decided'; closed in round 7 by C03.S5).",
        "",
        "**Third round** (rows `r3-…`, 10 properties × 2): steered towards places where two pieces of code",
        "must agree (a size computed in one helper and consumed in another, a constant shared by writer",
@@ -89,11 +89,23 @@ hdr = ["Each of the 20 properties was given to a fresh sub-agent that saw only t
        "requires the exported lookups confirmed on the pinned tree to stay extractable — a rewritten",
        "lookup had silently dropped out of the comparison): 19 own, 1 only by another (r6-C12-1), 0 missed.",
        "",
-       "Over the six rounds the first-pass rate of the own property's check on unseen changes was 24/40,",
-       "28/40, 15/20, 13/20, 13/20, 15/20 (by some check: 27/40, 33/40, 18/20, 17/20, 18/20, 19/20): the",
+       "**Seventh round** (rows `r7-…`, the ten properties of rounds 3 and 5 again): steered towards wrong-but-",
+       "plausible logic rather than removed guards — fast paths right for the common case only, caches and",
+       "reused buffers, helpers that drop one caller's special case, two cooperating sites, defaults that",
+       "differ between entry points. First pass (checker as committed before the round): 13 own, 3 more only",
+       "by another property's check (r7-C06-1, r7-C06-2, r7-C14-1), 4 by none. One of the four (r7-C03-2) was",
+       "the very change of r2-C03-2, the one documented miss of every earlier round, written again",
+       "independently. After strengthening (C03.S5 declared extent honoured; C01.R14 no value-selected",
+       "partial serialisation; C01.R15 fixed-width fields are encoded from the stored value, never from a",
+       "size table): 16 own, 3 only by another, 1 by none (r7-C14-2: a fail-fast parser guard that assumes",
+       "a 64-byte trailing signature). r7-C18-2's race demonstration passed once with the change at machine",
+       "load 200 and fails reliably on an idle machine (recorded in its confirm.txt).",
+       "",
+       "Over the seven rounds the first-pass rate of the own property's check on unseen changes was 24/40,",
+       "28/40, 15/20, 13/20, 13/20, 15/20, 13/20 (by some check: 27/40, 33/40, 18/20, 17/20, 18/20, 19/20, 16/20): the",
        "sub-agents were steered to something new each round, and each round still found clauses no rule",
        "decided. What the numbers support is that a realistic breaking change is very likely to be",
-       "reported by *some* check (≈ 90 % on unseen changes in the last four rounds) and that the misses",
+       "reported by *some* check (≈ 88 % on unseen changes in the last five rounds) and that the misses",
        "were each closable by a structural rule; they do not support a claim of completeness.",
        "",
        "Patches are relative to /repo at the commit current when they were written; r4-C02-1 touches a",
